@@ -127,6 +127,7 @@ def history(rnd):
     first_is_reg = rnd.random() < 0.5
     ctx_kinds = ["none", "shadow", "var"]
     early = rnd.sample(NEWOPS[:5], 2)
+    reusable = []  # (context id, model of its current contents)
     for i in range(n):
         if (i == 0 and first_is_reg) or (i > 0 and rnd.random() < 0.35):
             steps.append(reg_step(m, rnd))
@@ -155,9 +156,14 @@ def history(rnd):
             cvars["newfn"] = ["s", "shadow"]
             ctx["newfn"] = ("s", "shadow")
         text = ref.Renderer(table=m.tab).render(t)
-        cid = len(steps)
-        steps.append({"op": "ctx", "id": cid, "vars": cvars, "fns": cfns})
-        plan.append(None)
+        if reusable and rnd.random() < 0.3:
+            # the context of an earlier evaluation is used again (registrations may have happened in between): dispatch must follow
+            # the registries as they are NOW, whatever this context has seen before
+            cid, ctx = reusable[-1]
+        else:
+            cid = len(steps)
+            steps.append({"op": "ctx", "id": cid, "vars": cvars, "fns": cfns})
+            plan.append(None)
         fault = None
         if rnd.random() < 0.2:
             # one handler invocation of this evaluation fails: nothing else may be called in its place
@@ -165,6 +171,10 @@ def history(rnd):
         steps.append(dict({"op": "exec", "ctx": cid, "text": text, "want": "ae"}, **({"fault": {"k": fault[0], "kind": "err"}} if fault else {})))
         exp, ev = ref.evaluate(t, ctx, fault=fault, **m.kw())
         plan.append((text, t, exp, ev, "first-step-was-registration" if first_is_reg else "first-step-was-use"))
+        if exp[0] != "abstain":
+            reusable.append((cid, ev.ctx))
+        else:
+            reusable.clear()
     return steps, plan
 
 
@@ -333,6 +343,9 @@ def run_shard(desc):
                 else:
                     part["inconclusive"].append("%s %s" % (kind_, detail))
                 continue
+            if run.gave_up:
+                part["inconclusive"].append("cross-thread dispatch: %d logical-clock waits timed out (machine overloaded); run discarded" % run.gave_up)
+                continue
             st = run.steps()
             th = st[1].get("threads", [])
             seen = [("main thread after the join", st[2])]
@@ -378,6 +391,8 @@ def run_shard(desc):
                     st, detail = evalcheck.judge(exp, ev, r)
                 if st == "abstain":
                     part["abstained"] += 1
+                elif st == "norecord":
+                    part["inconclusive"].append("dispatch step without a result record (run output damaged)")
                 elif st == "pass":
                     part["classes"].add("%s:%s:%s" % (evalcheck.top_op(t), exp[0], first))
                     if len(part["samples"]) < 2 and exp[0] == "ok" and exp[1][0] == "l":
